@@ -20,7 +20,9 @@ def _with_dt(dt, f, *a):
 
 
 def replay(case):
-    if case["kind"] == "whole":
+    if case["kind"] == "deletion":
+        r = _with_dt(case["dt"], "run_with_deletion", case["stop"], case["npop"], case["deleter"], case["victim"], case["whenstep"] * case["dt"])
+    elif case["kind"] == "whole":
         r = _with_dt(case["dt"], "run_whole", case["start"], case["stop"], case["collect"], case["npop"])
     else:
         r = _with_dt(case["dt"], "run_single_steps", case["stop"], case["nsteps"], case["npop"])
@@ -51,6 +53,8 @@ def run(tier):
                 jobs.append((HFILE, "_whole", tmo, {"C12_DT": repr(dt), "C12_START": str(st), "C12_COLLECT": str(col),
                                                     "C12_MAXSTOP": str(maxstop)}, ("whole", dt)))
         jobs.append((HFILE, "_single", tmo, {"C12_DT": repr(dt)}, ("single", dt)))
+        if dt >= 0.5 or tier != "quick":
+            jobs.append((HFILE, "_deletion", tmo, {"C12_DT": repr(dt)}, ("deletion", dt)))
     jobs.append((HFILE, "_whole_twin", 60, {"C12_DT": "1.0"}, ("twin", 1.0)))
     jobs.append((HFILE_MUT, "_whole", 120, {"C12_DT": "0.5"}, ("canary", 0.5)))
     with ThreadPoolExecutor(max_workers=harness.nprocs()) as ex:
@@ -73,6 +77,11 @@ def run(tier):
                 case = {"kind": "whole", "dt": dt, "start": a.get("start", a.get("_pos0")), "stop": a.get("stop", a.get("_pos1")),
                         "collect": a.get("collect", a.get("_pos2")), "npop": a.get("npop", a.get("_pos3"))}
                 why = _with_dt(dt, "run_whole", case["start"], case["stop"], case["collect"], case["npop"])
+            elif kind == "deletion":
+                case = {"kind": "deletion", "dt": dt, "stop": a.get("stop", a.get("_pos0")), "npop": a.get("npop", a.get("_pos1")),
+                        "deleter": a.get("deleter", a.get("_pos2")), "victim": a.get("victim", a.get("_pos3")),
+                        "whenstep": a.get("whenstep", a.get("_pos4"))}
+                why = _with_dt(dt, "run_with_deletion", case["stop"], case["npop"], case["deleter"], case["victim"], case["whenstep"] * dt)
             else:
                 case = {"kind": "single", "dt": dt, "stop": a.get("stop", a.get("_pos0")), "nsteps": a.get("nsteps", a.get("_pos1")),
                         "npop": a.get("npop", a.get("_pos2"))}
@@ -90,5 +99,5 @@ def run(tier):
                          "traces_validated_against_impl": len(rep.cands), "samples": samples or [{"note": "none"}],
                          "crosshair": dict(chx.STATS), "exhaustive": True,
                          "explanation": "states = CrossHair conditions (each = all start/stop/collect/population of one dt); transitions = confirmed over all paths",
-                         "outside": "agents created/deleted during a run; stop = 0; HybridRunner threads"})
+                         "outside": "agents created during a run, deletion of a LATER agent during a step (the statement does not fix whether it still acts); stop = 0; HybridRunner threads"})
     return rep.finish()
